@@ -462,10 +462,10 @@ type SpecOutcome struct {
 	Events  []string
 }
 
-// CompileSpec declares -a/--aa (flag), -o/--out (valued), X (argument), sets the spec and calls Run with no argument.
+// CompileSpec declares -a/--aa (flag; mask bit 1), -o/--out (valued; 2), X (4), Y (8), sets the spec and calls Run with no argument.
 // Light-weight (no goroutine): under ContinueOnError with an empty command line nothing can call the exit function.
 // With sub=true the spec is given to a subcommand "sub" reached by routing, and the root has all three hooks.
-func CompileSpec(spec string, sub bool) (out SpecOutcome) {
+func CompileSpec(spec string, sub bool, declMask int) (out SpecOutcome) {
 	cli.VerifSetStdErr(io.Discard)
 	defer func() {
 		if v := recover(); v != nil {
@@ -489,9 +489,18 @@ func CompileSpec(spec string, sub bool) (out SpecOutcome) {
 	app.ErrorHandling = flag.ContinueOnError
 	ev := func(n string) func() { return func() { out.Events = append(out.Events, n) } }
 	decl := func(c *cli.Cmd) {
-		c.BoolOpt("a aa", false, "")
-		c.StringOpt("o out", "", "")
-		c.StringsArg("X", nil, "")
+		if declMask&1 != 0 {
+			c.BoolOpt("a aa", false, "")
+		}
+		if declMask&2 != 0 {
+			c.StringOpt("o out", "", "")
+		}
+		if declMask&4 != 0 {
+			c.StringsArg("X", nil, "")
+		}
+		if declMask&8 != 0 {
+			c.StringsArg("Y", nil, "")
+		}
 		c.Spec = spec
 		c.Before, c.Action, c.After = ev("B"), ev("ACT"), ev("A")
 	}
